@@ -17,6 +17,7 @@ struct TaskLog {
   std::array<bool, NSLOTS> failed_target{};
   std::array<bool, NSLOTS> moved_from{};
   bool finished = false;
+  std::vector<Pin> pins;
 };
 
 struct WorldRun {
@@ -195,6 +196,7 @@ void run_op(WorldRun &wr, int task, Pool &pool, const Op &op, uint32_t idx, Task
   sim::begin_op(idx, al, sc, cb);
   if (task >= 0) sim::yield_point(sim::Y_OPBOUND);
   ExecCtx c(wr.w, task, pool, op);
+  if (task >= 0) c.pins = &log.pins;
   exec_op(c);
   log.cnt.ops[op.kind]++;
   log.cnt.ops_status[c.out.status]++;
@@ -213,6 +215,34 @@ void run_op(WorldRun &wr, int task, Pool &pool, const Op &op, uint32_t idx, Task
   if (c.out.status == ST_OK && c.out.target2 >= 0 && c.out.target2 != c.out.target)
     log.moved_from[c.out.target2] = true;
   post_oracles(wr, pool, before, c, log.viol, task, idx, "op");
+  if (task >= 0 && !log.pins.empty()) {
+    // pinned references: dropped when their object was this operation's
+    // target, otherwise they must still be readable and unchanged
+    sim::Exempt e;
+    std::vector<Pin> keep;
+    for (const Pin &p : log.pins) {
+      if (p.slot >= 0 && (p.slot == c.out.target || p.slot == c.out.target2)) continue;
+      probe(PR_PIN_CHECKED);
+      uint32_t tag = p.ptr->raw_tag();
+      uint64_t now = p.ptr->bits();
+      if (tag == sim::TAG_DEAD || now != p.bits) {
+        Violation v;
+        v.prop = "C09";
+        v.cls = tag == sim::TAG_DEAD ? "dangling-reference" : "referenced-grid-point-changed";
+        v.detail = std::string("a reference returned by accessor ") + std::to_string(p.via) + " of a live, unmodified " +
+                   (p.slot < 0 ? "shared const object" : "object") +
+                   " no longer designates the same grid point after this operation";
+        v.task = task;
+        v.op = (int)idx;
+        v.opkind = op.kind;
+        v.site = op_name(op.kind);
+        log.viol.push_back(v);
+        continue;
+      }
+      keep.push_back(p);
+    }
+    log.pins.swap(keep);
+  }
   log.obs.push_back(c.out.obs);
   log.status.push_back(c.out.status);
 }
